@@ -7,12 +7,15 @@
   every probe order that satisfies the stated order constraints, every outcome of
   the parts of the readers that the header model does not read (`deep`).
 
-  Full for FAT12 and FAT16 (Create's boot sector, the readers' acceptance tests and
-  the probe chain are all mirrored); header level for FAT32, iso9660, squashfs and
-  ext4: their theorems start from what the respective Create is observed to put into
-  the header bytes (hypotheses named in each statement).
+  Full for FAT12, FAT16 and FAT32 (Create's write list, the readers' acceptance tests —
+  for FAT32 including the FSInfo sector and the comparison of the two FAT copies — and
+  the probe chain are all mirrored); header level for iso9660, squashfs and ext4: their
+  theorems start from what the respective Create is observed to put into the header
+  bytes (hypotheses named in each statement); for ext4 the clearing of the boot area is
+  part of the statement (probe_create_ext4_clears), acceptance of its own image is not.
 -/
 import DiskfsModel.Proofs.Detect
+import DiskfsModel.Proofs.DetectFat32
 import DiskfsModel.Generated.Detect
 set_option linter.unusedSimpArgs false
 namespace Diskfs.Detect.C12
@@ -400,5 +403,96 @@ example : layout12 genParams 8386048 = none := by decide          -- 4085 cluste
 example : layout16 genParams 16777216 ≠ none := by decide
 example : layout16 genParams 4194304 = none := by decide          -- below 4085 clusters: refused
 example : before [.fat32, .fat16, .fat12, .iso9660, .squashfs, .ext4] .squashfs .iso9660 = false := by decide -- the order of cex_sqfs_over_iso
+
+/-! ### FAT32, full: Create's write list over arbitrary stale content, fat32.Read whole -/
+
+/-- after fat32.Create both FAT copies hold the same bytes — whatever the range held before, for
+    every payload, label and serial -/
+theorem create32_fat_copies_equal (stale : Dev) (L : Layout32) (serial : Nat) (label : List Nat)
+    (fat rootDir : Bytes) (hb : 0 < L.bps) (j : Nat) (hj : j < L.spf * L.bps) :
+    applyWrs stale (createWrs32 L serial label fat rootDir) (32 * L.bps + j) =
+    applyWrs stale (createWrs32 L serial label fat rootDir) (32 * L.bps + L.spf * L.bps + j) := by
+  rw [create32_fat1 stale L serial label fat rootDir j hj hb, create32_fat2 stale L serial label fat rootDir j hj hb]
+
+/-- fat32.Read (header checks, FSInfo sector, geometry check and the comparison of the two FAT
+    copies — nothing observed) accepts what fat32.Create wrote, for every size Create accepts at
+    sector size 0/512/4096, every stale content, payload, label and serial -/
+theorem fat32_read_accepts_created (P : Params) (hP : P.wf32 = true) (stale : Dev)
+    (size avail bs0 serial : Nat) (label : List Nat) (fat rootDir : Bytes)
+    (L : Layout32) (h : layout32 P size bs0 = some L) (hav : size ≤ avail) :
+    verdictFat32Full P (applyWrs stale (createWrs32 L serial label fat rootDir)) size avail bs0 = .accept := by
+  obtain ⟨ok, hmax, hbs, _⟩ := layout32_ok P hP size bs0 L h
+  have hbpos : 0 < L.bps := by rcases ok.bps_ok with h | h <;> omega
+  have h512 : 512 ≤ L.bps := by rcases ok.bps_ok with h | h <;> omega
+  exact fat32_on_created P L serial label _ size avail bs0 ok hmax hav hbs
+    (fun i hi => create32_sector0 stale L serial label fat rootDir i (by omega) hbpos)
+    (fun i hi => create32_fsis stale L serial label fat rootDir i (by omega) hbpos)
+    (fatPayload L fat)
+    (fun j hj => create32_fat1 stale L serial label fat rootDir j hj hbpos)
+    (fun j hj => create32_fat2 stale L serial label fat rootDir j hj hbpos)
+
+/-- probe_create_fat32: after fat32.Create over ARBITRARY previous content, for every size Create
+    accepts, every label, serial and payload, GetFilesystem's probe chain returns FAT32 — for every
+    admissible probe order, with FAT32's own acceptance computed from the device (the deeper parts of
+    the OTHER readers may say anything: fat12/fat16 refuse the zero root-entry count, squashfs sees
+    no magic, iso9660 and ext4 are probed later) -/
+theorem probe_create_fat32 (P : Params) (hP : P.wf32 = true) (order : List Kind) (hord : orderCore order = true)
+    (stale : Dev) (size avail bs0 serial : Nat) (label : List Nat) (fat rootDir : Bytes) (deep : Kind → Verdict)
+    (L : Layout32) (h : layout32 P size bs0 = some L) (hav : size ≤ avail) :
+    probe (verdict P (applyWrs stale (createWrs32 L serial label fat rootDir))
+      (fullCtx (applyWrs stale (createWrs32 L serial label fat rootDir)) size avail bs0 deep)) order = .found .fat32 := by
+  obtain ⟨ok, hmax, hbs, _⟩ := layout32_ok P hP size bs0 L h
+  have hbpos : 0 < L.bps := by rcases ok.bps_ok with h | h <;> omega
+  have h512 : 512 ≤ L.bps := by rcases ok.bps_ok with h | h <;> omega
+  have hrd : ∀ i, i < 512 → applyWrs stale (createWrs32 L serial label fat rootDir) i = bootFat32 L serial label i :=
+    fun i hi => create32_sector0 stale L serial label fat rootDir i (by omega) hbpos
+  apply probe_create_fat32_hdr P order hord _ _ (boot32_rootEnts L serial label _ hrd)
+  · have := fat32_read_accepts_created P hP stale size avail bs0 serial label fat rootDir L h hav
+    simpa [verdict, fullCtx, verdictFat32Full] using this
+  · simp only [verdict, fullCtx]
+    exact sqfs_rejects_boot32 L serial label _ hrd _ _ _
+
+/-! ### ext4: the boot area is cleared first -/
+
+/-- ext4.Create (repaired, fix cf6210f) starts by writing 1024 zero bytes at offset 0 of the volume and
+    never writes below offset 1024 again (`rest`: everything it writes afterwards).  Then, over
+    ARBITRARY stale content — a stale FAT12/FAT16/FAT32 boot sector, a squashfs superblock — no FAT
+    reader and not squashfs accepts the volume; so if ext4.Read accepts its own image, GetFilesystem says
+    ext4, in every order that probes ext4 before iso9660 (or when iso9660 refuses). -/
+theorem probe_create_ext4_clears (P : Params) (order : List Kind) (hmem : Kind.ext4 ∈ order)
+    (stale : Dev) (rest : List Wr) (hrest : ∀ w ∈ rest, 1024 ≤ w.off) (c : Ctx)
+    (hacc : verdict P (applyWrs stale (⟨0, zeros 1024⟩ :: rest)) c .ext4 = .accept)
+    (hiso : verdict P (applyWrs stale (⟨0, zeros 1024⟩ :: rest)) c .iso9660 = .reject ∨ before order .ext4 .iso9660 = true) :
+    probe (verdict P (applyWrs stale (⟨0, zeros 1024⟩ :: rest)) c) order = .found .ext4 := by
+  apply probe_create_ext4_fixed_hdr P order hmem _ c _ hacc hiso
+  intro j hj
+  have hz : zeros 1024 = sectorBytes (fun _ => (0 : UInt8)) 1024 := by
+    simp [zeros, sectorBytes, List.map_const']
+  have := applyWrs_prefix_then_far stale [] rest (fun _ => (0 : UInt8)) 1024 j hj hrest
+  rw [hz]
+  simpa using this
+
+/-- in /repo's current probe order ext4 is probed before iso9660, so the side condition is met -/
+theorem probe_create_ext4_clears_repo (stale : Dev) (rest : List Wr) (hrest : ∀ w ∈ rest, 1024 ≤ w.off) (c : Ctx)
+    (hacc : verdict genParams (applyWrs stale (⟨0, zeros 1024⟩ :: rest)) c .ext4 = .accept) :
+    probe (verdict genParams (applyWrs stale (⟨0, zeros 1024⟩ :: rest)) c) genOrder = .found .ext4 :=
+  probe_create_ext4_clears genParams genOrder (by decide) stale rest hrest c hacc (Or.inr (by decide))
+
+/-- the regenerated FAT32 cluster-size table yields only sectors-per-cluster values the readers accept -/
+theorem facts_agree_params_wf32 : genParams.wf32 = true := by decide
+
+/-- ext4.Create still clears the boot area (the shape `probe_create_ext4_clears` assumes) -/
+theorem facts_agree_ext4_clears : Generated.Detect.ext4CreateClearsBootArea = true := by decide
+
+/-- FAT32 in /repo's current probe order with /repo's current table -/
+theorem probe_create_fat32_repo (stale : Dev) (size avail bs0 serial : Nat) (label : List Nat) (fat rootDir : Bytes)
+    (deep : Kind → Verdict) (L : Layout32) (h : layout32 genParams size bs0 = some L) (hav : size ≤ avail) :
+    probe (verdict genParams (applyWrs stale (createWrs32 L serial label fat rootDir))
+      (fullCtx (applyWrs stale (createWrs32 L serial label fat rootDir)) size avail bs0 deep)) genOrder = .found .fat32 :=
+  probe_create_fat32 genParams facts_agree_params_wf32 genOrder facts_agree_order_core stale size avail bs0 serial label fat rootDir deep L h hav
+
+example : layout32 genParams 67108864 512 ≠ none := by decide       -- 64 MiB, 512-byte sectors
+example : layout32 genParams 67108864 4096 ≠ none := by decide      -- 4096-byte sectors
+example : layout32 genParams 40960 512 = none := by decide          -- less than 32 KiB of data area: refused
 
 end Diskfs.Detect.C12
